@@ -326,9 +326,9 @@ func genMachine(t *rapid.T, maxOps int) *MachCase {
 	for i := 0; i < n; i++ {
 		switch rapid.IntRange(0, 5).Draw(t, "opk") {
 		case 0, 1, 2:
-			l := rapid.SampledFrom([]int{42, 60, 64, 200, 1499, 1500, 1501, 1600}).Draw(t, "len")
+			l := rapid.SampledFrom([]int{0, 1, 14, 42, 60, 64, 200, 1499, 1500, 1501, 1600}).Draw(t, "len")
 			if rapid.IntRange(0, 3).Draw(t, "rndlen") == 0 {
-				l = rapid.IntRange(42, 1700).Draw(t, "len2")
+				l = rapid.IntRange(0, 1700).Draw(t, "len2")
 			}
 			c.Ops = append(c.Ops, MOp{K: "new", Len: l, Salt: rapid.Byte().Draw(t, "salt"), Lazy: rapid.IntRange(0, 4).Draw(t, "lazy") == 0})
 		case 3, 4:
